@@ -163,6 +163,25 @@ def stepC01 (c : CBox Rat) (toks : List String) : CBox Rat × String :=
       | some u, some v => if n1 = 0 || n2 = 0 then (c, err "value") else (c, showRat (clampCos (angleCos u v n1 n2)))
       | _, _ => (c, err "value")
     | _, _, _ => (c, err "format")
+  | "ctor" :: name :: rest =>
+    match parseRats? rest with
+    | none => (c, err "format")
+    | some xs =>
+      let k : Option (Ctor Rat) := match name, xs with
+        | "cubic", [a] => some (.cubic a)
+        | "hexagonal", [a, c'] => some (.hexagonal a c')
+        | "tetragonal", [a, c'] => some (.tetragonal a c')
+        | "trigonal", [a, al] => some (.trigonal a al)
+        | "orthorhombic", [a, b, c'] => some (.orthorhombic a b c')
+        | "monoclinic", [a, b, c', be] => some (.monoclinic a b c' be)
+        | "triclinic", [a, b, c', al, be, ga] => some (.triclinic a b c' al be ga)
+        | _, _ => none
+      match k with
+      | none => (c, err "op")
+      | some k =>
+        match k.params? with
+        | some (.abc a b c' al be ga o) => (c, "ok " ++ showRats ([a, b, c', al, be, ga] ++ o.toList))
+        | _ => (c, err "value")
   | "r2cs" :: rest =>
     match parseRats? rest with
     | some xs => match triples xs with
